@@ -10,6 +10,8 @@
 //	N;r k        Unrank(r,k) followed by Rank of the result
 //	O;r k        Unrank(r,k) decided by the oracle below only (too many steps for the model driver)
 //	X;n k        all values of CombinationsColex(n,k)
+//	S;tok ...    a sequence of calls in one process: T<n>, U<n>,<k>, C<n>,<k>, R<c0>,<c1>,..., N<r>,<k>
+//	             as above, and m = the caller scribbles over the slices the previous call returned
 //
 // Projected observation = what the property determines: the exact value where the function must
 // return (C(n,k)*min(k,n-k) fits the result type), `opt:<value>` where it may either return the
@@ -124,6 +126,10 @@ func project(cl class, panicked bool, got *big.Int, what string) (string, []hx.O
 	return "panic", nil
 }
 
+// lastReturned holds the slices the most recent Coeffs / Unrank call handed to the caller; the
+// token "m" of a sequence case scribbles over them, as a caller is free to do.
+var lastReturned [][]int
+
 func callU64(n, k uint64) (v uint64, panicked bool) {
 	defer func() {
 		if recover() != nil {
@@ -148,7 +154,9 @@ func callCoeffs(n int) (v [][]int, panicked bool) {
 			panicked = true
 		}
 	}()
-	return comb.Coeffs(n), false
+	v = comb.Coeffs(n)
+	lastReturned = v
+	return v, false
 }
 
 func callRank(c []int) (v int, panicked bool) {
@@ -166,7 +174,9 @@ func callUnrank(r, k int) (v []int, panicked bool) {
 			panicked = true
 		}
 	}()
-	return comb.Unrank(r, k), false
+	v = comb.Unrank(r, k)
+	lastReturned = [][]int{v}
+	return v, false
 }
 
 func rawInt(v int, panicked bool) string {
@@ -357,6 +367,38 @@ func exec(line string) hx.Result {
 			res.Obs = hx.Ints(c) + ";rt=" + robs + " ## " + rawInt(rv, rp)
 		}
 		return res
+	case "S":
+		// a sequence of calls made one after the other in this one process: every call must
+		// behave as it does in fresh state (no hidden package-level state, panics recovered by
+		// the caller, results scribbled over by the caller in between)
+		var obs []string
+		var viol []hx.OracleViolation
+		calls := 0
+		for idx, tok := range args {
+			if tok == "m" {
+				for _, sl := range lastReturned {
+					for j := range sl {
+						sl[j] = -7 - j
+					}
+				}
+				obs = append(obs, "m")
+				continue
+			}
+			if !strings.Contains("UCTRN", tok[:1]) {
+				return hx.Result{Obs: "invalid"}
+			}
+			lastReturned = nil
+			sub := exec(tok[:1] + ";" + strings.ReplaceAll(tok[1:], ",", " "))
+			proj, _, _ := strings.Cut(sub.Obs, " ## ")
+			obs = append(obs, proj)
+			for _, v := range sub.Viol {
+				v.Detail = fmt.Sprintf("call %d (%s) of the sequence: %s", idx+1, tok, v.Detail)
+				viol = append(viol, v)
+			}
+			calls++
+		}
+		return hx.Result{Obs: strings.Join(obs, " | "), Nontrivial: calls >= 2, Viol: viol,
+			Buckets: []string{fmt.Sprintf("S:calls<=%d", bucket(calls))}}
 	case "X":
 		if len(args) != 2 {
 			break
@@ -397,6 +439,14 @@ func exec(line string) hx.Result {
 		return hx.Result{Obs: sb.String(), Nontrivial: total >= 2, Viol: viol, Buckets: []string{"X"}}
 	}
 	return hx.Result{Obs: "invalid"}
+}
+
+func bits64(n uint64) int {
+	b := 0
+	for ; n > 0; n >>= 1 {
+		b++
+	}
+	return b
 }
 
 func outcome(obs string) string {
@@ -772,6 +822,181 @@ func gen(g *hx.Gen) {
 		emit("R;%s", strings.Join(strs, " "))
 	}
 
+	// ---- ranks at, just below and just above C(l,k) for small k, l on a geometric grid over the
+	// whole feasible range -- including l for which the rank exceeds 2^53, where floating point
+	// loses integers.  Unrank walks l upwards one step at a time (about k*l steps), so these are
+	// slow calls: they get a step budget of their own and are judged by the oracle only.
+	slowSteps, slowBudget, slowSkipped := 0.0, float64(g.Pick(4, 19))*1e9, 0
+	slow := func(r *big.Int, k int, l uint64) {
+		if r.Sign() < 0 || !r.IsInt64() {
+			return
+		}
+		steps := float64(k) * float64(l)
+		if steps <= 20000 {
+			unrankCase(uint64(r.Int64()), k)
+			return
+		}
+		if slowSteps+steps > slowBudget {
+			slowSkipped++
+			return
+		}
+		slowSteps += steps
+		emit("O;%d %d", r.Int64(), k)
+	}
+	rankSets := func(l uint64, k int) {
+		// the k-sets whose ranks are C(l,k)-1, C(l,k), C(l,k)+1 and two in between
+		if l < uint64(k)+2 || l > math.MaxInt64-2 {
+			return
+		}
+		sets := [][]int{make([]int, k), make([]int, k), make([]int, k), make([]int, k)}
+		for j := 0; j < k; j++ {
+			sets[0][j] = int(l) - k + j // {l-k..l-1}: rank C(l,k)-1
+			sets[1][j] = j              // {0..k-2, l}: rank C(l,k)
+			sets[2][j] = j
+			sets[3][j] = int(l) - k + j
+		}
+		sets[1][k-1] = int(l)
+		sets[2][k-1] = int(l)
+		sets[2][k-2] = k - 1 // {0..k-3, k-1, l}: rank C(l,k)+1
+		sets[3][0] = 0       // {0, l-k+1..l-1}
+		for _, c := range sets {
+			if increasingNaturals(c) {
+				strs := make([]string, k)
+				for j, v := range c {
+					strs[j] = strconv.Itoa(v)
+				}
+				emit("R;%s", strings.Join(strs, " "))
+			}
+		}
+	}
+	for k := 2; k <= 6; k++ {
+		fit, _ := trueThresholds(uint64(k), maxIntB) // largest l with C(l,k) <= MaxInt
+		walkMax := fit
+		if k == 2 {
+			walkMax = uint64(g.Pick(3<<26+3<<22, 1<<29+1<<25)) // C(l,2) up to 2*10^16 (quick), 1.6*10^17 (thorough)
+		}
+		var grid []uint64
+		for j := uint(4); j < 63; j++ {
+			for _, b := range []uint64{1 << j, 3 << (j - 1)} {
+				if b <= fit {
+					grid = append(grid, b+rnd.U64()%(b/16+1))
+				}
+			}
+		}
+		grid = append(grid, fit-1, fit, fit+1)
+		if k == 2 {
+			grid = append(grid, 94906266) // C(l,2) just below 2^53 (the grid point 2^27+... is just above)
+		}
+		// the largest l first: they are the ones the budget must not drop
+		for i := len(grid) - 1; i >= 0; i-- {
+			l := grid[i]
+			rankSets(l, k)
+			if l > walkMax {
+				continue
+			}
+			ds := []int64{-3, -2, -1, 0, 1}
+			if !g.Thorough() && k == 2 {
+				ds = []int64{-2, -1, 0}
+				if l < 1<<26 {
+					ds = []int64{-1, 0}
+					if bits64(l)%4 != 0 {
+						continue
+					}
+				}
+			}
+			c := binomBig(l, uint64(k))
+			for _, d := range ds {
+				slow(new(big.Int).Add(c, big.NewInt(d)), k, l)
+			}
+		}
+	}
+	g.Exhaustive("Unrank at C(l,k)+d, d = -3..1, and Rank of the sets of rank C(l,k)-1..C(l,k)+1, for k = 2..6 and l on a geometric grid (2^j, 3*2^(j-1), randomly offset) up to the largest feasible l (Unrank with k = 2: l <= 3*2^26 in the quick tier, 2^29 in the thorough tier)")
+	if slowSkipped > 0 {
+		g.Note(fmt.Sprintf("%d slow Unrank cases dropped by the step budget", slowSkipped))
+	}
+
+	// ---- sequences of calls inside one process: hidden package-level state, recovered panics
+	// followed by further calls, results scribbled over by the caller ("m")
+	seq := func(toks ...string) { emit("S;%s", strings.Join(toks, " ")) }
+	T := func(n int) string { return fmt.Sprintf("T%d", n) }
+	for _, hi := range []int{67, 68, 70, 100} {
+		for _, n := range []int{65, 66, 67, 68} {
+			if n <= hi {
+				seq(T(hi), T(n))
+				seq(T(n), T(hi), T(n))
+				seq(T(hi), "m", T(n), T(hi))
+			}
+		}
+	}
+	seq("T66", "m", "T66")
+	seq("T10", "m", "T12", "m", "T5")
+	seq("T30", "m", "T66", "T67", "T66", "m", "T33")
+	seq("N1000,3", "m", "N1000,3")
+	seq("N5,2", "m", "N6,2", "R0,1", "m", "N5,2")
+	seq("R1,2,9223372036854775807", "R1,2,3", "N2,3")
+	for _, k := range []uint64{2, 3, 19, 31} {
+		_, step := trueThresholds(k, maxU64)
+		seq(fmt.Sprintf("U%d,%d", step+1, k), fmt.Sprintf("U%d,%d", step, k), fmt.Sprintf("U%d,%d", step+1, k), fmt.Sprintf("U%d,%d", step, step-k))
+		if step < math.MaxInt64 {
+			seq(fmt.Sprintf("C%d,%d", step+1, k), fmt.Sprintf("C%d,%d", step, k), fmt.Sprintf("U%d,%d", step, k))
+		}
+	}
+	for i := 0; i < g.Pick(150, 4000); i++ {
+		n := rnd.Range(2, 8)
+		var toks []string
+		for len(toks) < n {
+			if len(toks) > 0 && toks[len(toks)-1] != "m" && rnd.Chance(1, 4) {
+				toks = append(toks, "m")
+				continue
+			}
+			switch rnd.Intn(6) {
+			case 0, 1:
+				v := rnd.Intn(13)
+				switch rnd.Intn(3) {
+				case 0:
+					v = rnd.Range(60, 72)
+				case 1:
+					v = []int{31, 32, 33, 63, 64, 65, 66, 67, 68, 100, 127, 128, 129}[rnd.Intn(13)]
+				}
+				toks = append(toks, T(v))
+			case 2:
+				k := uint64(rnd.Range(1, 33))
+				_, step := trueThresholds(k, maxU64)
+				nn := step + uint64(rnd.Intn(5)) - 2
+				if nn < k || rnd.Bool() {
+					nn = uint64(rnd.Intn(90))
+					k = uint64(rnd.Intn(int(nn) + 2))
+				}
+				toks = append(toks, fmt.Sprintf("U%d,%d", nn, k))
+			case 3:
+				k := uint64(rnd.Range(1, 33))
+				_, step := trueThresholds(k, maxIntB)
+				nn := step + uint64(rnd.Intn(5)) - 2
+				if nn < k || nn > math.MaxInt64 || rnd.Bool() {
+					nn = uint64(rnd.Intn(90))
+					k = uint64(rnd.Intn(int(nn) + 2))
+				}
+				toks = append(toks, fmt.Sprintf("C%d,%d", nn, k))
+			case 4:
+				k := rnd.Range(1, 5)
+				c := make([]string, k)
+				v := rnd.Intn(4)
+				for j := range c {
+					if j == k-1 && rnd.Chance(1, 4) {
+						v += int(randBits() >> 1 % (math.MaxInt64 - 100))
+					}
+					c[j] = strconv.Itoa(v)
+					v += 1 + rnd.Intn(5)
+				}
+				toks = append(toks, "R"+strings.Join(c, ","))
+			default:
+				k := rnd.Range(2, 6)
+				toks = append(toks, fmt.Sprintf("N%d,%d", rnd.Intn(200000), k))
+			}
+		}
+		seq(toks...)
+	}
+
 	// agreement with CombinationsColex
 	maxN := g.Pick(12, 16)
 	for n := 0; n <= maxN; n++ {
@@ -784,7 +1009,7 @@ func gen(g *hx.Gen) {
 
 func main() {
 	hx.Main(hx.Prop{
-		Rule:        "case = one call (CoeffUint64/Coeff (n,k), Coeffs(n), Rank(list), Unrank(r,k), CombinationsColex(n,k)); non-trivial = an (n,k) with n > 32 or within 3 of a point where the demanded behaviour changes, or a rank > 2^31 (CombinationsColex: at least 2 values); distinct by case text",
+		Rule:        "case = one call (CoeffUint64/Coeff (n,k), Coeffs(n), Rank(list), Unrank(r,k), CombinationsColex(n,k)) or a sequence S of such calls in one process (non-trivial with at least 2 calls); non-trivial = an (n,k) with n > 32 or within 3 of a point where the demanded behaviour changes, or a rank > 2^31 (CombinationsColex: at least 2 values); distinct by case text",
 		Gen:         gen,
 		Exec:        exec,
 		CaseTimeout: 60 * time.Second,
